@@ -8,9 +8,12 @@ import (
 	"errors"
 	"fmt"
 	"net"
+	"reflect"
+	"regexp"
 	"strconv"
 	"strings"
 	"sync"
+	"sync/atomic"
 
 	"github.com/postalsys/muti-metroo/internal/identity"
 	"github.com/postalsys/muti-metroo/internal/peer"
@@ -22,6 +25,11 @@ import (
 //	conc <d|l> <g> <p>   g goroutines x p calls of peer.Connection.NextStreamID() on one connection end
 //	                     -> ok n=<g*p> distinct=<k> min=<m> max=<M> zero=<c> badparity=<c>
 //	warm <d|l> <k> <g> <p>  k sequential calls first (state left by earlier use), then as conc; statistics over all ids
+//	cold <d|l> <conns> <g>  <conns> FRESH connections; on each, g goroutines make their FIRST allocation behind a barrier
+//	                     -> ok conns=<n> g=<g> dup=<conns with a repeated id> zero=<c> badparity=<c> exact=<conns whose id set is start,start+2,…>
+//	life|alife <d|l> <n> (on a connection | on a bare allocator) n rounds of: allocate a, allocate b, "give a back" through every public method of the connection /
+//	                     its allocator whose name matches release|reset|return|free|rewind (reflection), allocate c;
+//	                     statistics over all 3n ids -> ok n=… distinct=… (as conc)
 //	pair <g> <p>         both ends of a connection at the same time
 //	                     -> ok d: n=… distinct=… min=… max=… zero=… badparity=… l: … overlap=<k>
 //	seq <d|l> <k>        first k ids of a fresh transport.StreamIDAllocator -> ok id id …
@@ -90,6 +98,31 @@ func c38Stats(out [][]uint64, dialer bool) (string, map[uint64]struct{}) {
 	return fmt.Sprintf("n=%d distinct=%d min=%d max=%d zero=%d badparity=%d", n, len(set), min, max, zero, bad), set
 }
 
+var c38GiveBackRe = regexp.MustCompile(`(?i)release|reset|return|free|rewind`)
+
+// c38GiveBackMethods: every exported method of v (a *peer.Connection or a *transport.StreamIDAllocator)
+// whose name suggests that an id can be handed back, with signature func(uint64) or func().  On a
+// connection the name must also mention the stream ids.  None exists in the code the check was written for.
+func c38GiveBackMethods(v reflect.Value, mustMentionStream bool) []func(id uint64) {
+	var out []func(uint64)
+	t := v.Type()
+	for i := 0; i < t.NumMethod(); i++ {
+		name := t.Method(i).Name
+		low := strings.ToLower(name)
+		if !c38GiveBackRe.MatchString(name) || (mustMentionStream && !strings.Contains(low, "stream") && !strings.Contains(low, "id")) {
+			continue
+		}
+		fn := v.Method(i)
+		switch ft := fn.Type(); {
+		case ft.NumIn() == 1 && ft.In(0).Kind() == reflect.Uint64:
+			out = append(out, func(id uint64) { fn.Call([]reflect.Value{reflect.ValueOf(id)}) })
+		case ft.NumIn() == 0:
+			out = append(out, func(uint64) { fn.Call(nil) })
+		}
+	}
+	return out
+}
+
 func c38NewConn(dialer bool) *peer.Connection {
 	var id identity.AgentID
 	return peer.NewConnection(&c38Conn{dialer: dialer}, peer.DefaultConnectionConfig(id))
@@ -119,6 +152,83 @@ func init() {
 				done.Wait()
 				s, _ := c38Stats(out, dialer)
 				return "ok " + s
+			case "cold":
+				dialer := f[1] == "d"
+				conns, g := atoi(f[2]), atoi(f[3])
+				want, first := uint64(0), uint64(2)
+				if dialer {
+					want, first = 1, 1
+				}
+				dup, zero, bad, exact := 0, 0, 0, 0
+				for n := 0; n < conns; n++ {
+					c := c38NewConn(dialer)
+					ids := make([]uint64, g)
+					var ready atomic.Int32
+					var done sync.WaitGroup
+					for i := 0; i < g; i++ {
+						i := i
+						done.Add(1)
+						go func() {
+							defer done.Done()
+							ready.Add(1)
+							for ready.Load() < int32(g) { // spin barrier: all first allocations start together
+							}
+							ids[i] = c.NextStreamID()
+						}()
+					}
+					done.Wait()
+					c.Close()
+					seen := map[uint64]bool{}
+					isDup, isExact := false, true
+					for _, id := range ids {
+						if seen[id] {
+							isDup = true
+						}
+						seen[id] = true
+						if id == 0 {
+							zero++
+						}
+						if id%2 != want {
+							bad++
+						}
+					}
+					for k := 0; k < g; k++ {
+						if !seen[first+2*uint64(k)] {
+							isExact = false
+						}
+					}
+					if isDup {
+						dup++
+					}
+					if isExact {
+						exact++
+					}
+				}
+				return fmt.Sprintf("ok conns=%d g=%d dup=%d zero=%d badparity=%d exact=%d", conns, g, dup, zero, bad, exact)
+			case "life", "alife":
+				dialer := f[1] == "d"
+				n := atoi(f[2])
+				var next func() uint64
+				var giveBack []func(uint64)
+				if f[0] == "life" {
+					c := c38NewConn(dialer)
+					defer c.Close()
+					next, giveBack = c.NextStreamID, c38GiveBackMethods(reflect.ValueOf(c), true)
+				} else {
+					a := transport.NewStreamIDAllocator(dialer)
+					next, giveBack = a.Next, c38GiveBackMethods(reflect.ValueOf(a), false)
+				}
+				var ids []uint64
+				for i := 0; i < n; i++ {
+					a := next()
+					b := next()
+					for _, m := range giveBack {
+						m(a)
+					}
+					ids = append(ids, a, b, next())
+				}
+				st, _ := c38Stats([][]uint64{ids}, dialer)
+				return "ok " + st
 			case "pair":
 				g, p := atoi(f[1]), atoi(f[2])
 				cd, cl := c38NewConn(true), c38NewConn(false)
@@ -177,6 +287,11 @@ func init() {
 					fmt.Fprintf(w, "warm %s %d %d %d\n", r.pickS("d", "l"), r.pick(1, 255, 256, 257, 4095, 4096, 4097, 65535, 65536, 65537), r.pick(1, 2, 8, 64), r.pick(1, 2, 255, 256, 257, 4096, 4097))
 					fmt.Fprintf(w, "conc %s %d %d\n", r.pickS("d", "l"), r.pick(1, 2, 16), r.pick(255, 256, 257, 4095, 4096, 4097, 65535, 65536, 65537))
 				}
+				// cold connections: the very first allocations race
+				for _, g := range []int{2, 3, 4} {
+					fmt.Fprintf(w, "cold d %d %d\ncold l %d %d\n", 700+r.intn(300), g, 700+r.intn(300), g)
+				}
+				fmt.Fprintf(w, "life d %d\nlife l %d\nalife d %d\nalife l %d\n", 1+r.intn(50), 1+r.intn(50), 1+r.intn(50), 1+r.intn(50))
 				for i := 0; i < 20; i++ {
 					fmt.Fprintf(w, "seq %s %d\n", r.pickS("d", "l"), r.pick(0, 1, 2, 3, 10, 100))
 				}
